@@ -25,7 +25,7 @@ from ..harness import SymVars, ConcVars, compare
 from ..report import guarded, run_parallel
 
 CFGS = [
-    dict(name='pipe-status', H=3600, dur=2 * 3600, controls=[dict(kind='status', target='P2', value=0), dict(kind='status', target='P2', value=1)]),
+    dict(name='pipe-status', H=3600, dur=2 * 3600, head_pump=True, controls=[dict(kind='status', target='P2', value=0), dict(kind='status', target='P2', value=1)]),
     dict(name='valve-status', H=3600, dur=3600, controls=[dict(kind='status', target='VT', value=0), dict(kind='status', target='P2', value=0)]),
     dict(name='valve-setting', H=3600, dur=2 * 3600, controls=[dict(kind='setting', target='VT', value='sym'), dict(kind='status', target='VT', value=1)]),
     dict(name='pump-status+leak', H=3600, dur=2 * 3600, controls=[dict(kind='status', target='PP', value=0), dict(kind='leak', target='J2')]),
@@ -169,6 +169,7 @@ def check_inp_write(rep):
     for cfg in CFGS[:3]:
         cfg = dict(cfg, report=cfg['H'])     # report_timestep='ALL' is a WNTR-only value the INP format has no place for
         wn = runkit.build(V, cfg)
+        _pdd(wn)
         for n in list(wn.junction_name_list):
             if wn.get_node(n)._leak:
                 wn.get_node(n).remove_leak(wn)
@@ -182,11 +183,19 @@ def check_inp_write(rep):
             rep.discharged('definition/inp-write/' + cfg['name'], sample='to_dict unchanged by write_inpfile')
 
 
+def _pdd(wn):
+    """pressure-dependent demand with a required pressure below the limit EPANET accepts (the writer must clamp it in the FILE only)"""
+    wn.options.hydraulic.demand_model = 'PDD'
+    wn.options.hydraulic.required_pressure = 0.06
+    wn.options.hydraulic.minimum_pressure = 0.0
+
+
 def replay_inpwrite(i):
     import tempfile, os
     cfg = dict(i['cfg'], report=i['cfg']['H'])
     V = ConcVars(_Default({'t0': 3600, 't1': 5400, 't2': 7000, 'val0': 12.5, 'ls1': 1800, 'le1': 5400}))
     wn = runkit.build(V, cfg)
+    _pdd(wn)
     for n in list(wn.junction_name_list):
         if wn.get_node(n)._leak:
             wn.get_node(n).remove_leak(wn)
